@@ -420,6 +420,46 @@ class _Displays(ast.NodeTransformer):
         return node
 
 
+class _Defaults(ast.NodeTransformer):
+    """a default of a builtin spelled out: slice(a, b, None) is slice(a, b)"""
+
+    def visit_Call(self, node):
+        self.generic_visit(node)
+        if isinstance(node.func, ast.Name) and node.func.id == "slice" and len(node.args) == 3 and not node.keywords \
+                and isinstance(node.args[2], ast.Constant) and node.args[2].value is None:
+            node.args = node.args[:2]
+        return node
+
+
+class _Annotations(ast.NodeTransformer):
+    """inside a function body `target: T = value` is `target = value` (the annotation of a local / an attribute has no effect);
+    a bare `target: T` is no statement at all.  Class and module level annotated assignments are left alone (dataclasses read them)."""
+
+    def __init__(self):
+        self.depth = 0
+
+    def visit_FunctionDef(self, node):
+        self.depth += 1
+        self.generic_visit(node)
+        self.depth -= 1
+        return node
+
+    visit_AsyncFunctionDef = visit_FunctionDef
+
+    def visit_ClassDef(self, node):
+        d, self.depth = self.depth, 0
+        self.generic_visit(node)
+        self.depth = d
+        return node
+
+    def visit_AnnAssign(self, node):
+        if not self.depth:
+            return node
+        if node.value is None:
+            return ast.copy_location(ast.Pass(), node)
+        return ast.copy_location(ast.Assign(targets=[node.target], value=node.value), node)
+
+
 def desugar(tree):
     if any(isinstance(n, (ast.Match, ast.NamedExpr)) for n in ast.walk(tree)):
         tree = _Desugar().visit(tree)
@@ -434,5 +474,9 @@ def desugar(tree):
     if any(isinstance(n, ast.Call) and isinstance(n.func, ast.Name) and n.func.id in ("list", "set") and len(n.args) == 1
            and isinstance(n.args[0], ast.GeneratorExp) for n in ast.walk(tree)):
         tree = _Displays().visit(tree)
+    if any(isinstance(n, ast.AnnAssign) for n in ast.walk(tree)):
+        tree = _Annotations().visit(tree)
+    if "slice" in names and not any(isinstance(n, ast.Name) and n.id == "slice" and isinstance(n.ctx, ast.Store) for n in ast.walk(tree)):
+        tree = _Defaults().visit(tree)
     ast.fix_missing_locations(tree)
     return tree
